@@ -413,12 +413,12 @@ func runC02(c *eng.Ctx) {
 
 	// ---------------- (4b) the padding of a record is computed from the size recorded in its header
 	{
-		n := 0
 		for _, spec := range [][2]string{{"weed/storage/needle", "(*Needle).prepareWriteBuffer"}, {"weed/storage/needle", "(*Needle).ReadBytes"}, {"weed/storage", "(*Volume).StreamWrite"}} {
 			fn := c.NeedFunc(spec[0], spec[1])
 			if fn == nil {
 				continue
 			}
+			n := 0
 			for _, in := range eng.Find(fn, eng.PlainCallTo("needle.PaddingLength")) {
 				call := in.(*ssa.Call)
 				ok := true
